@@ -94,8 +94,8 @@ structure Inv (s : State) : Prop where
   fresh : ∀ r, s.nrc ≤ r → s.rc r = {}
   /-- an arena entry is a created rc of that key whose file is open -/
   arenaOk : ∀ k r, s.arena k = some r → r < s.nrc ∧ (s.rc r).key = k ∧ (s.rc r).fileOpen = true
-  /-- an open file is the arena entry of its key -/
-  openIn : ∀ r, (s.rc r).fileOpen = true → s.arena (s.rc r).key = some r
+  /-- an open file is the arena entry of its key, unless the arena was Closed under it -/
+  openIn : ∀ r, (s.rc r).fileOpen = true → s.arena (s.rc r).key = some r ∨ s.detached r = true
   /-- a flight that is past a Load miss owns its key: nothing is stored under it -/
   missNone : ∀ k f, s.flight k = some f →
     (f.phase = .missed ∨ f.phase = .requesting ∨ f.phase = .fetched) → s.arena k = none
@@ -107,8 +107,9 @@ structure Inv (s : State) : Prop where
   /-- a task blocked in the select waits for a flight that exists -/
   waitFlight : ∀ p ∈ s.tasks, ∀ k, p = .waiting k → s.flight k ≠ none
   /-- a stored file nobody references yet is on its way to a waiter, or was orphaned -/
-  zeroIn : ∀ k r, s.arena k = some r → (s.rc r).count = 0 →
-    (∃ f, s.flight k = some f ∧ resultOf f.phase = some (some r)) ∨ .got k r ∈ s.tasks ∨ r ∈ s.orphans
+  zeroIn : ∀ r, r < s.nrc → (s.rc r).fileOpen = true → (s.rc r).count = 0 →
+    (∃ f, s.flight (s.rc r).key = some f ∧ resultOf f.phase = some (some r)) ∨
+      .got (s.rc r).key r ∈ s.tasks ∨ r ∈ s.orphans
 
 theorem inv_init : Inv init := by
   constructor <;> simp [init, refsOn]
@@ -155,14 +156,14 @@ theorem inv_setTask {s : State} (h : Inv s) {t : Nat} {q p' : Pc} (ht : s.tasks[
     rcases List.mem_or_eq_of_mem_set hp with hp | rfl
     · exact h.waitFlight p hp k hpk
     · exact hwait k hpk
-  · intro k r ha hc
-    rcases h.zeroIn k r ha hc with hf | hg | ho
+  · intro r hlt ho hc
+    rcases h.zeroIn r hlt ho hc with hf | hg | ho'
     · exact Or.inl hf
     · refine Or.inr (Or.inl ?_)
       apply mem_set_of_ne hg ht
       intro he
-      exact hgot k r he.symm hc
-    · exact Or.inr (Or.inr ho)
+      exact hgot _ r he.symm hc
+    · exact Or.inr (Or.inr ho')
 
 /-! ### transitions that only change one flight -/
 
@@ -201,22 +202,23 @@ theorem inv_setFlight {s : State} (h : Inv s) (k : Nat) (f' : Flight) (hits' : N
     · subst hk; simp
     · simp only [upd_other _ _ _ _ hk]
       exact h.waitFlight p hp k' hpk
-  · intro k' r ha hc
-    rcases h.zeroIn k' r ha hc with ⟨f, hf, hr⟩ | hg | ho
+  · intro r hlt ho hc
+    rcases h.zeroIn r hlt ho hc with ⟨f, hf, hr⟩ | hg | ho'
     · left
-      by_cases hk : k' = k
-      · subst hk
-        exact ⟨f', by simp, c3 f r hf hr⟩
+      by_cases hk : (s.rc r).key = k
+      · rw [hk] at hf
+        exact ⟨f', by simp only [hk, upd_same], c3 f r hf hr⟩
       · exact ⟨f, by simp only [upd_other _ _ _ _ hk]; exact hf, hr⟩
     · exact Or.inr (Or.inl hg)
-    · exact Or.inr (Or.inr ho)
+    · exact Or.inr (Or.inr ho')
 
 /-! ### releasing a reference: `rc.dec` together with the owner's move -/
 
 theorem dec_one {s : State} {r : Nat} (h1 : (s.rc r).count = 1) :
     dec true s r =
       ({ s with rc := upd s.rc r { s.rc r with count := 0, fileOpen := false },
-                arena := if s.arena (s.rc r).key = some r then upd s.arena (s.rc r).key none else s.arena },
+                arena := if s.arena (s.rc r).key = some r then upd s.arena (s.rc r).key none else s.arena,
+                deaths := upd s.deaths (s.rc r).key (s.deaths (s.rc r).key + 1) },
        false) := by
   have h0 : (s.rc r).count ≠ 0 := by omega
   simp only [dec, if_neg h0, if_pos h1, if_true]
@@ -307,13 +309,15 @@ theorem inv_dec_task {s : State} (h : Inv s) {t : Nat} {q p' : Pc} {r : Nat}
       by_cases hr : r' = r
       · subst hr; simp [setTask] at ho
       · simp only [setTask, upd_other _ _ _ _ hr] at ho ⊢
-        have hin := h.openIn r' ho
-        split
-        · rename_i hrin
-          by_cases hkk : (s.rc r').key = (s.rc r).key
-          · rw [hkk] at hin; rw [hrin] at hin; exact absurd (Option.some.inj hin).symm hr
-          · rw [upd_other _ _ _ _ hkk]; exact hin
-        · exact hin
+        rcases h.openIn r' ho with hin | hd
+        · left
+          split
+          · rename_i hrin
+            by_cases hkk : (s.rc r').key = (s.rc r).key
+            · rw [hkk] at hin; rw [hrin] at hin; exact absurd (Option.some.inj hin).symm hr
+            · rw [upd_other _ _ _ _ hkk]; exact hin
+          · exact hin
+        · exact Or.inr hd
     · intro k f hf hp
       have := h.missNone k f hf hp
       show (if s.arena (s.rc r).key = some r then upd s.arena (s.rc r).key none else s.arena) k = none
@@ -351,13 +355,14 @@ theorem inv_dec_task {s : State} (h : Inv s) {t : Nat} {q p' : Pc} {r : Nat}
       rcases List.mem_or_eq_of_mem_set hp with hp | rfl
       · exact h.waitFlight p hp k hpk
       · exact absurd hpk (hwait k)
-    · intro k r' ha hc
-      obtain ⟨ha', hne⟩ := harena k r' ha
-      simp only [setTask, upd_other _ _ _ _ hne] at hc
-      rcases h.zeroIn k r' ha' hc with hf | hg | ho
+    · intro r' hlt ho hc
+      have hne : r' ≠ r := by
+        intro he; subst he; simp [setTask] at ho
+      simp only [setTask, upd_other _ _ _ _ hne] at ho hc ⊢
+      rcases h.zeroIn r' hlt ho hc with hf | hg | ho'
       · exact Or.inl hf
-      · exact Or.inr (Or.inl (mem_set_of_ne hg ht (fun he => hgotq k r' he.symm)))
-      · exact Or.inr (Or.inr ho)
+      · exact Or.inr (Or.inl (mem_set_of_ne hg ht (fun he => hgotq _ r' he.symm)))
+      · exact Or.inr (Or.inr ho')
   · -- other references remain
     have hne0 : (s.rc r).count ≠ 0 := by omega
     have h2 : 2 ≤ (s.rc r).count := by omega
@@ -424,16 +429,16 @@ theorem inv_dec_task {s : State} (h : Inv s) {t : Nat} {q p' : Pc} {r : Nat}
       rcases List.mem_or_eq_of_mem_set hp with hp | rfl
       · exact h.waitFlight p hp k hpk
       · exact absurd hpk (hwait k)
-    · intro k r' ha hc
+    · intro r' hlt ho hc
       have hne : r' ≠ r := by
         intro he; subst he
         simp [setTask] at hc
         omega
-      simp only [setTask, upd_other _ _ _ _ hne] at hc
-      rcases h.zeroIn k r' ha hc with hf | hg | ho
+      simp only [setTask, upd_other _ _ _ _ hne] at ho hc ⊢
+      rcases h.zeroIn r' hlt ho hc with hf | hg | ho'
       · exact Or.inl hf
-      · exact Or.inr (Or.inl (mem_set_of_ne hg ht (fun he => hgotq k r' he.symm)))
-      · exact Or.inr (Or.inr ho)
+      · exact Or.inr (Or.inl (mem_set_of_ne hg ht (fun he => hgotq _ r' he.symm)))
+      · exact Or.inr (Or.inr ho')
 
 /-! ### `c.Ref()` -/
 
@@ -501,18 +506,18 @@ theorem inv_ref {s : State} (h : Inv s) {t k r : Nat} (ht : s.tasks[t]? = some (
     rcases List.mem_or_eq_of_mem_set hp with hp | rfl
     · exact h.waitFlight p hp k' hpk
     · cases hpk
-  · intro k' r' ha hc
+  · intro r' hlt ho hc
     have hne : r' ≠ r := by
       intro he; subst he
       simp [setTask] at hc
-    simp only [setTask, upd_other _ _ _ _ hne] at hc
-    rcases h.zeroIn k' r' ha hc with hf | hg | ho
+    simp only [setTask, upd_other _ _ _ _ hne] at ho hc ⊢
+    rcases h.zeroIn r' hlt ho hc with hf | hg | ho'
     · exact Or.inl hf
     · refine Or.inr (Or.inl (mem_set_of_ne hg ht ?_))
       intro he
       injection he with _ he2
       exact hne he2
-    · exact Or.inr (Or.inr ho)
+    · exact Or.inr (Or.inr ho')
 
 /-! ### the flight stores a new file -/
 
@@ -562,11 +567,13 @@ theorem inv_fstore {s : State} (h : Inv s) {k : Nat} {f : Flight} (hf : s.flight
     by_cases hr : r = s.nrc
     · subst hr; simp [setPhase]
     · simp only [setPhase, upd_other _ _ _ _ hr] at ho ⊢
-      have hin := h.openIn r ho
-      have hkk : (s.rc r).key ≠ k := by
-        intro he; rw [he, hnone] at hin; cases hin
-      rw [upd_other _ _ _ _ hkk]
-      exact hin
+      rcases h.openIn r ho with hin | hd
+      · left
+        have hkk : (s.rc r).key ≠ k := by
+          intro he; rw [he, hnone] at hin; cases hin
+        rw [upd_other _ _ _ _ hkk]
+        exact hin
+      · exact Or.inr hd
   · intro k' f' hf' hp
     by_cases hkk : k' = k
     · subst hkk
@@ -604,20 +611,23 @@ theorem inv_fstore {s : State} (h : Inv s) {k : Nat} {f : Flight} (hf : s.flight
     · subst hkk; simp [setPhase]
     · simp only [setPhase, upd_other _ _ _ _ hkk]
       exact h.waitFlight p hp k' hpk
-  · intro k' r ha hc
-    by_cases hkk : k' = k
-    · subst hkk
-      simp only [setPhase, upd_same, Option.some.injEq] at ha
-      subst ha
+  · intro r hlt ho hc
+    by_cases hr : r = s.nrc
+    · subst hr
       exact Or.inl ⟨{ f with phase := .stored s.nrc }, by simp [setPhase], by simp [resultOf]⟩
-    · simp only [setPhase, upd_other _ _ _ _ hkk] at ha
-      have hlt := (h.arenaOk k' r ha).1
-      have hne : r ≠ s.nrc := by omega
-      simp only [setPhase, upd_other _ _ _ _ hne] at hc
-      rcases h.zeroIn k' r ha hc with ⟨f', hf', hr⟩ | hg | ho
-      · exact Or.inl ⟨f', by simp only [setPhase, upd_other _ _ _ _ hkk]; exact hf', hr⟩
+    · have hlt' : r < s.nrc := by
+        have : r < s.nrc + 1 := hlt
+        omega
+      simp only [setPhase, upd_other _ _ _ _ hr] at ho hc ⊢
+      rcases h.zeroIn r hlt' ho hc with ⟨f', hf', hrs⟩ | hg | ho'
+      · by_cases hkk : (s.rc r).key = k
+        · rw [hkk, hf] at hf'
+          cases hf'
+          rw [hph] at hrs
+          simp [resultOf] at hrs
+        · exact Or.inl ⟨f', by rw [upd_other _ _ _ _ hkk]; exact hf', hrs⟩
       · exact Or.inr (Or.inl hg)
-      · exact Or.inr (Or.inr ho)
+      · exact Or.inr (Or.inr ho')
 
 /-! ### the flight ends: singleflight hands the result to the waiters -/
 
@@ -687,44 +697,46 @@ theorem inv_fend {s : State} (h : Inv s) {k : Nat} {f : Flight} {res : Option Na
       have hkk : k' ≠ k := by intro he; subst he; exact hne rfl
       simp only [upd_other _ _ _ _ hkk]
       exact h.waitFlight _ hp k' rfl
-  · intro k' r ha hc
+  · intro r hlt ho hc
     have hgotmap : ∀ k'' r'', Pc.got k'' r'' ∈ s.tasks → Pc.got k'' r'' ∈ s.tasks.map (deliver k res) := by
       intro k'' r'' hg
       refine List.mem_map.2 ⟨_, hg, ?_⟩
       simp [deliver]
-    rcases h.zeroIn k' r ha hc with ⟨f', hf', hr⟩ | hg | ho
-    · by_cases hkk : k' = k
-      · subst hkk
-        rw [hf] at hf'
+    rcases h.zeroIn r hlt ho hc with ⟨f', hf', hr⟩ | hg | ho'
+    · by_cases hkk : (s.rc r).key = k
+      · rw [hkk, hf] at hf'
         cases hf'
         rw [hres] at hr
         cases hr
-        by_cases hn : s.tasks.countP (· = .waiting k') = 0
+        by_cases hn : s.tasks.countP (· = .waiting k) = 0
         · right; right
           have hc' : (s.rc r).count = 0 := hc
           simp [orphansAfter, hn, hc']
         · right; left
-          have hpos : 0 < s.tasks.countP (· = .waiting k') := by omega
+          have hpos : 0 < s.tasks.countP (· = .waiting k) := by omega
           obtain ⟨p, hp, hpw⟩ := List.countP_pos_iff.1 hpos
-          have hpw' : p = .waiting k' := by simpa using hpw
+          have hpw' : p = .waiting k := by simpa using hpw
           subst hpw'
           refine List.mem_map.2 ⟨_, hp, ?_⟩
+          show deliver k (some r) (.waiting k) = .got (s.rc r).key r
+          rw [hkk]
           simp [deliver]
       · exact Or.inl ⟨f', by simp only [upd_other _ _ _ _ hkk]; exact hf', hr⟩
-    · exact Or.inr (Or.inl (hgotmap k' r hg))
+    · exact Or.inr (Or.inl (hgotmap _ r hg))
     · right; right
       cases res with
-      | none => exact ho
+      | none => exact ho'
       | some r0 =>
         show r ∈ orphansAfter s k (some r0)
         simp only [orphansAfter]
         split
-        · exact List.mem_cons_of_mem _ ho
-        · exact ho
+        · exact List.mem_cons_of_mem _ ho'
+        · exact ho'
 
 /-! ### a new task -/
 
-theorem inv_spawn {s : State} (h : Inv s) (k : Nat) : Inv { s with tasks := s.tasks ++ [.ready k] } := by
+theorem inv_spawn {s : State} (h : Inv s) (k : Nat) :
+    Inv { s with tasks := s.tasks ++ [.ready k], skeys := s.skeys ++ [k] } := by
   have hmem : ∀ p, p ∈ s.tasks ++ [Pc.ready k] → p ∈ s.tasks ∨ p = .ready k := by
     intro p hp
     rcases List.mem_append.1 hp with hp | hp
@@ -753,11 +765,17 @@ theorem inv_spawn {s : State} (h : Inv s) (k : Nat) : Inv { s with tasks := s.ta
     rcases hmem p hp with hp | rfl
     · exact h.waitFlight p hp k' hpk
     · cases hpk
-  · intro k' r ha hc
-    rcases h.zeroIn k' r ha hc with hf | hg | ho
+  · intro r hlt ho hc
+    rcases h.zeroIn r hlt ho hc with hf | hg | ho'
     · exact Or.inl hf
     · exact Or.inr (Or.inl (List.mem_append_left _ hg))
-    · exact Or.inr (Or.inr ho)
+    · exact Or.inr (Or.inr ho')
+
+/-- The ghost counters are not mentioned by the invariant. -/
+theorem inv_ghost {s : State} (h : Inv s) (st de : Nat → Nat) (sk : List Nat) :
+    Inv { s with stales := st, deaths := de, skeys := sk } :=
+  ⟨h.cnt, h.noLeak, h.fresh, h.arenaOk, h.openIn, h.missNone, h.flightRes, h.taskKey, h.openHeld,
+    h.waitFlight, h.zeroIn⟩
 
 /-! ### every transition preserves the invariant -/
 
@@ -917,12 +935,22 @@ theorem inv_step {s : State} (h : Inv s) (op : Op) : Inv (step s op).1 := by
       split
       · rename_i f hf
         split
-        · exact inv_setFlight (s := setTask s t .failed) h1 k { f with ctxDead := true } s.hits
-            (by intro hp; exact h.missNone k f hf hp)
-            (by intro r hr; exact h.flightRes k f r hf hr)
-            (by intro f' r hf' hr
-                have : s.flight k = some f' := hf'
-                rw [hf] at this; cases this; exact hr)
+        · by_cases hreq : f.phase = .requesting
+          · simp only [hreq, if_true]
+            exact inv_setFlight (s := setTask s t .failed) h1 k { f with ctxDead := true, phase := .failed } s.hits
+              (by intro hp; rcases hp with hp | hp | hp <;> cases hp)
+              (by intro r hr; simp [resultOf] at hr)
+              (by intro f' r hf' hr
+                  have : s.flight k = some f' := hf'
+                  rw [hf] at this; cases this
+                  rw [hreq] at hr; simp [resultOf] at hr)
+          · simp only [hreq, if_false]
+            exact inv_setFlight (s := setTask s t .failed) h1 k { f with ctxDead := true } s.hits
+              (by intro hp; exact h.missNone k f hf hp)
+              (by intro r hr; exact h.flightRes k f r hf hr)
+              (by intro f' r hf' hr
+                  have : s.flight k = some f' := hf'
+                  rw [hf] at this; cases this; exact hr)
         · exact h1
       · exact h1
     · exact h
@@ -943,9 +971,9 @@ theorem inv_step {s : State} (h : Inv s) (op : Op) : Inv (step s op).1 := by
         exact inv_setTask h ht (by intro r'; rfl) (by intro k' r' hp; exact hp)
           (by intro r' hp; simp only [Pc.usesFile, Option.some.injEq] at hp; subst hp; exact ho)
           (by intro k' hk'; cases hk') (by intro k' r' hq; cases hq)
-      · exact inv_setTask h ht (by intro r'; rfl) (by intro k' r' hp; exact hp)
+      · exact inv_ghost (inv_setTask h ht (by intro r'; rfl) (by intro k' r' hp; exact hp)
           (by intro r' hp; cases hp)
-          (by intro k' hk'; cases hk') (by intro k' r' hq; cases hq)
+          (by intro k' hk'; cases hk') (by intro k' r' hq; cases hq)) _ _ _
     · exact h
   | retry t =>
     simp only [step, stepG]
@@ -979,6 +1007,39 @@ theorem inv_step {s : State} (h : Inv s) (op : Op) : Inv (step s op).1 := by
       simp at hr
     · exact h
   | query k => exact h
+  | ftmpfail k =>
+    simp only [step, stepG]
+    split
+    · rename_i f hf
+      split
+      · rename_i hph
+        have c3 : ∀ (f' : Flight) (r : Nat), s.flight k = some f' → resultOf f'.phase = some (some r) → False := by
+          intro f' r hf' hr
+          rw [hf] at hf'; cases hf'
+          rw [hph] at hr; simp [resultOf] at hr
+        exact inv_setFlight h k { f with phase := .failed } s.hits
+          (by intro hp; rcases hp with hp | hp | hp <;> cases hp)
+          (by intro r' hr; simp [resultOf] at hr)
+          (by intro f' r' hf' hr; exact absurd (c3 f' r' hf' hr) id)
+      · exact h
+    · exact h
+  | aclose =>
+    simp only [step, stepG]
+    constructor
+    · exact h.cnt
+    · exact h.noLeak
+    · exact h.fresh
+    · intro k r hk; cases hk
+    · intro r ho
+      right
+      have ho' : (s.rc r).fileOpen = true := ho
+      simp [ho']
+    · intro k f _ _; rfl
+    · exact h.flightRes
+    · exact h.taskKey
+    · exact h.openHeld
+    · exact h.waitFlight
+    · exact h.zeroIn
 
 theorem reachable_inv (ops : List Op) : Inv (Sm.run step init ops) :=
   Sm.invariant_run (Inv := Inv) (fun _ op h => inv_step h op) ops init inv_init
